@@ -331,7 +331,10 @@ ROUND6 = {
     "C01": " Round 6: three response frames in four carry user headers that look like the op id header to anything but a walk over the "
            "length-prefixed pairs (a name ending in _opid whose value is a neighbouring op id, a value holding a whole _opid pair).",
     "C06": " Round 6: one caller in seven has a foreign FContext implementation that is held inside its op id read (yield point ctx.opid) "
-           "while frames for the other requests arrive; the look-alike headers of C01.",
+           "while frames for the other requests arrive; the look-alike headers of C01. Theorem c06_nothing_foreign_under_the_registry_lock over "
+           "data regenerated from registry.go on every run (translator/ctxlocks.go, second view of the paths): on every control-flow path of "
+           "Register / Unregister / Execute / dispatch, at each call of a method of a caller-supplied value, each function handed one and each "
+           "channel send, the mutex is not held (checker proved to mean that: foreign_ok_spec).",
     "C03": " Round 6: every other lab service has a method returning a union, and handlers may return a union with no member set (a reply "
            "abandoned part-way): exactly one well-formed INTERNAL_ERROR reply, handler once, the calls that follow served (direct oracle).",
     "C05": " Round 6: the JSON payloads also announce negative container sizes and 64-bit sizes whose low word is a small int32; a recovered "
